@@ -225,6 +225,63 @@ def point_ops(check, repo):
                      expected="value operators return a new point and leave both operands unchanged")
 
 
+CONTAINER_REVIEWED = {
+    ("Crypto.Random.random", "StrongRandom.shuffle"): "shuffle(x) is documented to work in place",
+}
+
+
+def container_argument_mutation(check, repo):
+    """P4 for containers: a list / dict / set handed in by the caller (prot_params, share lists, sequences) is never
+    changed by a public function - no pop / update / append / item store on a parameter, unless the name was first
+    re-bound to a copy.  (Private helpers that consume a dictionary their caller built for them - the
+    `_create_base_cipher(dict_parameters)` protocol - and nested closures are not public entry points.)"""
+    n = 0
+    for mname, mod in sorted(repo.modules.items()):
+        if ".SelfTest" in mname:
+            continue
+        for q, f in sorted(mod.funcs.items()):
+            if f.name.startswith("_") and not (f.name.startswith("__") and f.name.endswith("__")):
+                continue
+            up, nested = getattr(f, "_parent", None), False
+            while up is not None:
+                if isinstance(up, (ast.FunctionDef, ast.AsyncFunctionDef, ast.Lambda)):
+                    nested = True
+                    break
+                up = getattr(up, "_parent", None)
+            if nested:
+                continue
+            params = set(a.arg for a in f.args.args + f.args.kwonlyargs) - set(["self", "cls"])
+            if not params:
+                continue
+            n += 1
+            rebound = {}
+            for x in walk_no_nested(f):
+                if isinstance(x, ast.Assign):
+                    for t in x.targets:
+                        if isinstance(t, ast.Name) and t.id in params:
+                            rebound[t.id] = min(rebound.get(t.id, 10 ** 9), x.lineno)
+            bad = []
+            for x in walk_no_nested(f):
+                name = None
+                if isinstance(x, ast.Call) and isinstance(x.func, ast.Attribute) and x.func.attr in MUTATORS and isinstance(x.func.value, ast.Name):
+                    name, what = x.func.value.id, ".%s()" % x.func.attr
+                elif isinstance(x, ast.Subscript) and isinstance(x.ctx, (ast.Store, ast.Del)) and isinstance(x.value, ast.Name):
+                    name, what = x.value.id, "[..] store"
+                elif isinstance(x, ast.AugAssign) and isinstance(x.target, ast.Subscript) and isinstance(x.target.value, ast.Name):
+                    name, what = x.target.value.id, "[..] update"
+                if name in params and rebound.get(name, 10 ** 9) >= x.lineno:
+                    bad.append((x.lineno, "%s%s at line %d" % (name, what, x.lineno)))
+            if bad and (mname, q) in CONTAINER_REVIEWED:
+                continue
+            if bad or n <= 2:
+                check.ob("P4", "P4|container|%s.%s" % (mname.split(".")[-1], q), not bad, mod.path, f.lineno,
+                         extracted=("changes a container argument of the caller: " + "; ".join(b[1] for b in sorted(bad)[:3])) if bad else "no container parameter is modified",
+                         expected="caller-owned containers (parameter dictionaries, lists of shares) are read, never modified")
+    check.count("public_functions_scanned_for_container_mutation", n)
+    if n < 300:
+        raise AnalysisError("only %d public functions scanned" % n)
+
+
 IMMUTABLE_CTORS = ("frozenset", "tuple", "namedtuple", "bytes", "int", "str", "compile", "Struct", "property", "staticmethod", "classmethod",
                    "RLock", "Lock")
 MUTATORS = ("append", "extend", "insert", "pop", "remove", "clear", "update", "setdefault", "sort", "reverse", "add", "discard", "popitem")
@@ -317,6 +374,7 @@ def class_level_shared_objects(check, repo):
 def run(check, ctx):
     repo = ctx.repo
     class_level_shared_objects(check, repo)
+    container_argument_mutation(check, repo)
     argument_mutation(check, repo)
     shared_buffers(check, repo)
     copy_rules(check, repo)
